@@ -898,7 +898,9 @@ reg(Contract('dd.bdd._try_to_reorder._wrapper', [('bdd', 'mgr'), ('args', 'opaqu
              pre=lambda c: [('FPRE', FPRE(*_fs(c.S))), ('enc-lastlen', c.S.lastlen >= -1)], post=wrap_post, modifies=M.ALLF, ret='int',
              raises={'_NeedsReordering': Raise(when=lambda c: And(c.S0.ctx, c.S0.lastlen >= 0),
                                                post=lambda c: [('FNRP', FNRP(*(_fs(c.S0) + _fs(c.S1)))), ('flags', _flags_kept(c))]),
-                     'OtherError': Raise(when=lambda c: BoolVal(True), post=lambda c: [('ctx-restored', c.S1.ctx == c.S0.ctx)])}))
+                     'OtherError': Raise(when=lambda c: BoolVal(True),
+                                         post=lambda c: [('ctx-restored', c.S1.ctx == c.S0.ctx),
+                                                         ('reordering-still-enabled', (c.S1.lastlen >= 0) == (c.S0.lastlen >= 0))])}))
 
 reg(Contract('dd.bdd._suspend_reordering._wrapper', [('bdd', 'mgr'), ('args', 'opaque'), ('kwargs', 'opaque')], mgr='bdd',
              pre=lambda c: [('FPRE', FPRE(*_fs(c.S))), ('enc-lastlen', c.S.lastlen >= -1), ('in-context-or-not', BoolVal(True))],
